@@ -846,3 +846,154 @@ Proof.
       replace (sval w q + 1) with (sval w q + sval w (ONE n)) by (rewrite S1; reflexivity).
       apply I_add_ok; auto using wf_ONE. rewrite S1. lia.
 Qed.
+
+(* ---------- next_multiple_of ---------- *)
+
+(* the target: for SB > 0 the least multiple of SB that is >= SA, for SB < 0 the greatest multiple
+   of SB that is <= SA (both: SA moved to a multiple of SB in the direction of the sign of SB) *)
+Definition snext (SA SB : Z) : Z :=
+  if erem SA SB =? 0 then SA else if 0 <? SB then SA + (SB - erem SA SB) else SA - erem SA SB.
+
+Lemma snext_char_pos SA SB : 0 < SB ->
+  (exists k, snext SA SB = k * SB) /\ SA <= snext SA SB /\
+  (forall k, SA <= k * SB -> snext SA SB <= k * SB).
+Proof.
+  intros Hs. destruct (euclid_spec SA SB ltac:(lia)) as [E Hr]. unfold snext.
+  set (q := ediv SA SB) in *. set (r := erem SA SB) in *.
+  replace (0 <? SB) with true by (symmetry; apply Z.ltb_lt; lia).
+  destruct (Z.eqb_spec r 0) as [Hz|Hz].
+  - split; [exists q; lia|]. split; [lia|]. intros; lia.
+  - split; [exists (q + 1); lia|]. split; [lia|]. intros k Hk.
+    assert (q < k) by nia. nia.
+Qed.
+
+Lemma snext_char_neg SA SB : SB < 0 ->
+  (exists k, snext SA SB = k * SB) /\ snext SA SB <= SA /\
+  (forall k, k * SB <= SA -> k * SB <= snext SA SB).
+Proof.
+  intros Hs. destruct (euclid_spec SA SB ltac:(lia)) as [E Hr]. unfold snext.
+  set (q := ediv SA SB) in *. set (r := erem SA SB) in *.
+  replace (0 <? SB) with false by (symmetry; apply Z.ltb_ge; lia).
+  destruct (Z.eqb_spec r 0) as [Hz|Hz].
+  - split; [exists q; lia|]. split; [lia|]. intros; lia.
+  - split; [exists q; lia|]. split; [lia|]. intros k Hk.
+    assert (q <= k) by nia. nia.
+Qed.
+
+(* closed forms *)
+Lemma snext_closed_pos SA SB : 0 < SB -> snext SA SB = - ((- SA) / SB) * SB.
+Proof.
+  intros Hs. destruct (euclid_spec SA SB ltac:(lia)) as [E Hr]. unfold snext.
+  set (q := ediv SA SB) in *. set (r := erem SA SB) in *.
+  replace (0 <? SB) with true by (symmetry; apply Z.ltb_lt; lia).
+  destruct (Z.eqb_spec r 0) as [Hz|Hz].
+  - rewrite <- (Z.div_unique (- SA) SB (- q) 0); lia.
+  - rewrite <- (Z.div_unique (- SA) SB (- (q + 1)) (SB - r)); lia.
+Qed.
+
+Lemma snext_closed_neg SA SB : SB < 0 -> snext SA SB = SA / (- SB) * (- SB).
+Proof.
+  intros Hs. unfold snext, erem. rewrite (Z.abs_neq SB) by lia.
+  replace (0 <? SB) with false by (symmetry; apply Z.ltb_ge; lia).
+  pose proof (Z.div_mod SA (- SB) ltac:(lia)).
+  destruct (Z.eqb_spec (SA mod - SB) 0); lia.
+Qed.
+
+(* the unsuffixed form: the intermediate `rhs - rem` is exact (0 < rhs - rem < rhs), so the only
+   possible overflow is the final add / sub, i.e. an unrepresentable target *)
+Theorem I_next_multiple_of_ok dbg w n a b :
+  0 < w -> U_div_rem_spec w -> (0 < n)%nat -> wf w n a -> wf w n b ->
+  (sval w b = 0 -> I_next_multiple_of dbg w a b = Panic) /\
+  (sval w b <> 0 -> inS (Mod w n) (snext (sval w a) (sval w b)) = true ->
+     SRet w n (I_next_multiple_of dbg w a b) (snext (sval w a) (sval w b))) /\
+  (sval w b <> 0 -> inS (Mod w n) (snext (sval w a) (sval w b)) = false ->
+     if dbg then I_next_multiple_of dbg w a b = Panic
+     else SRet w n (I_next_multiple_of dbg w a b)
+            (wrapS (Mod w n) (snext (sval w a) (sval w b)))).
+Proof.
+  intros Hw HS Hn Ha Hb. unfold I_next_multiple_of.
+  split.
+  { intros Hz. destruct (I_wrapping_rem_euclid_ok dbg w n a b Hw HS Hn Ha Hb) as (H1 & _).
+    rewrite (H1 Hz). reflexivity. }
+  pose proof (sval_range w n a Hw Hn Ha) as RA. pose proof (sval_range w n b Hw Hn Hb) as RB.
+  assert (Hcore : sval w b <> 0 ->
+    exists rem, I_wrapping_rem_euclid dbg w a b = Ret rem /\ wf w n rem /\
+      sval w rem = erem (sval w a) (sval w b) /\ is_negative w rem = false /\
+      (0 < sval w b -> sval w rem <> 0 ->
+         SRet w n (I_sub dbg w b rem) (sval w b - sval w rem))).
+  { intros Hnz. destruct (I_wrapping_rem_euclid_total dbg w n a b Hw HS Hn Ha Hb Hnz)
+      as (rem & E & Hrem & Hv).
+    destruct (euclid_spec (sval w a) (sval w b) Hnz) as [_ Hr]. rewrite <- Hv in Hr.
+    exists rem. split; [exact E|]. split; [exact Hrem|]. split; [exact Hv|]. split.
+    - rewrite (is_negative_spec w n) by auto. apply Z.ltb_ge. lia.
+    - intros Hpos Hrnz. apply I_sub_ok; auto. lia. }
+  split; intros Hnz Ht; destruct (Hcore Hnz) as (rem & -> & Hrem & Hv & Hneg & Hsub);
+    cbn [obind]; rewrite (is_zero_sval w n rem), Hneg, (is_negative_spec w n b) by auto;
+    unfold snext in *; rewrite <- Hv in *;
+    destruct (Z.eqb_spec (sval w rem) 0) as [Hz|Hz].
+  - exists a. auto.
+  - destruct (Z.ltb_spec (sval w b) 0) as [Hs|Hs]; cbn [Bool.eqb].
+    + replace (0 <? sval w b) with false in Ht |- * by (symmetry; apply Z.ltb_ge; lia).
+      apply I_sub_spec; auto.
+    + replace (0 <? sval w b) with true in Ht |- * by (symmetry; apply Z.ltb_lt; lia).
+      destruct (Hsub ltac:(lia) Hz) as (d & -> & Hd & Hdv). cbn [obind]. rewrite <- Hdv in Ht |- *.
+      apply I_add_spec; auto.
+  - apply inS_false in Ht. lia.
+  - destruct (Z.ltb_spec (sval w b) 0) as [Hs|Hs]; cbn [Bool.eqb].
+    + replace (0 <? sval w b) with false in Ht |- * by (symmetry; apply Z.ltb_ge; lia).
+      apply I_sub_spec; auto.
+    + replace (0 <? sval w b) with true in Ht |- * by (symmetry; apply Z.ltb_lt; lia).
+      destruct (Hsub ltac:(lia) Hz) as (d & -> & Hd & Hdv). cbn [obind]. rewrite <- Hdv in Ht |- *.
+      apply I_add_spec; auto.
+Qed.
+
+Theorem I_checked_next_multiple_of_ok dbg w n a b :
+  0 < w -> U_div_rem_spec w -> (0 < n)%nat -> wf w n a -> wf w n b ->
+  (sval w b = 0 -> I_checked_next_multiple_of dbg w a b = Ret None) /\
+  (sval w b <> 0 -> inS (Mod w n) (snext (sval w a) (sval w b)) = true ->
+     exists r, I_checked_next_multiple_of dbg w a b = Ret (Some r) /\ wf w n r /\
+       sval w r = snext (sval w a) (sval w b)) /\
+  (sval w b <> 0 -> inS (Mod w n) (snext (sval w a) (sval w b)) = false ->
+     I_checked_next_multiple_of dbg w a b = Ret None).
+Proof.
+  intros Hw HS Hn Ha Hb. unfold I_checked_next_multiple_of.
+  split; [intros Hz; rewrite (zero_test_true w n b) by auto; reflexivity|].
+  pose proof (sval_range w n a Hw Hn Ha) as RA. pose proof (sval_range w n b Hw Hn Hb) as RB.
+  pose proof (Mod_pos w n ltac:(lia)) as HM. pose proof (Mod_even w n Hw Hn) as HMe.
+  assert (Hcore : sval w b <> 0 ->
+    exists rem, I_wrapping_rem_euclid dbg w a b = Ret rem /\ wf w n rem /\
+      sval w rem = erem (sval w a) (sval w b) /\ is_negative w rem = false /\
+      wf w n (I_wrapping_sub w b rem) /\
+      (0 < sval w b -> sval w (I_wrapping_sub w b rem) = sval w b - sval w rem)).
+  { intros Hnz. destruct (I_wrapping_rem_euclid_total dbg w n a b Hw HS Hn Ha Hb Hnz)
+      as (rem & E & Hrem & Hv).
+    destruct (euclid_spec (sval w a) (sval w b) Hnz) as [_ Hr]. rewrite <- Hv in Hr.
+    destruct (I_wrapping_sub_spec w n b rem Hw Hn Hb Hrem) as (W1 & _ & W3).
+    exists rem. split; [exact E|]. split; [exact Hrem|]. split; [exact Hv|]. split; [|split].
+    - rewrite (is_negative_spec w n) by auto. apply Z.ltb_ge. lia.
+    - exact W1.
+    - intros Hpos. rewrite W3. apply wrapS_id; lia. }
+  split; intros Hnz Ht; rewrite (zero_test_false w n b) by auto;
+    destruct (Hcore Hnz) as (rem & -> & Hrem & Hv & Hneg & Hwd & Hdv);
+    cbn [obind]; rewrite (is_zero_sval w n rem), Hneg, (is_negative_spec w n b) by auto;
+    unfold snext in *; rewrite <- Hv in *;
+    destruct (Z.eqb_spec (sval w rem) 0) as [Hz|Hz].
+  - exists a. auto.
+  - destruct (Z.ltb_spec (sval w b) 0) as [Hs|Hs]; cbn [Bool.eqb].
+    + replace (0 <? sval w b) with false in Ht |- * by (symmetry; apply Z.ltb_ge; lia).
+      destruct (I_checked_sub_spec w n a rem Hw Hn Ha Hrem) as [Hin _].
+      destruct (Hin Ht) as (r & -> & Hr & Hrv). exists r. auto.
+    + replace (0 <? sval w b) with true in Ht |- * by (symmetry; apply Z.ltb_lt; lia).
+      rewrite <- (Hdv ltac:(lia)) in Ht |- *.
+      destruct (I_checked_add_spec w n a _ Hw Hn Ha Hwd) as [Hin _].
+      destruct (Hin Ht) as (r & -> & Hr & Hrv). exists r. auto.
+  - apply inS_false in Ht. lia.
+  - destruct (Z.ltb_spec (sval w b) 0) as [Hs|Hs]; cbn [Bool.eqb].
+    + replace (0 <? sval w b) with false in Ht by (symmetry; apply Z.ltb_ge; lia).
+      destruct (I_checked_sub_spec w n a rem Hw Hn Ha Hrem) as [_ Hout].
+      rewrite (Hout Ht). reflexivity.
+    + replace (0 <? sval w b) with true in Ht by (symmetry; apply Z.ltb_lt; lia).
+      rewrite <- (Hdv ltac:(lia)) in Ht.
+      destruct (I_checked_add_spec w n a _ Hw Hn Ha Hwd) as [_ Hout].
+      rewrite (Hout Ht). reflexivity.
+Qed.
